@@ -375,6 +375,14 @@ Definition store_new (P : params) (fail_resp : aresp) (lc : N)
        let s7 := set_lastlog s6 (e_idx (last_of news)) (e_term (last_of news)) in
        inl (Some (s7, tr3 ++ trs ++ [EStore news true], fs5)).
 
+(* a.Entries[i-1] for the conflicting a.Entries[i], or the request's previous entry for i = 0:
+   news is the suffix a.Entries[i:] *)
+Definition conflict_pred (a : areq) (news : list entry) : N * N :=
+  match rev (firstn (length (aq_entries a) - length news) (aq_entries a)) with
+  | e :: _ => (e_idx e, e_term e)
+  | [] => (aq_prevIdx a, aq_prevTerm a)
+  end.
+
 Definition ae_entries (P : params) (fail_resp : aresp) (s2 : nstate) (tr1 : list ev) (fs1 : list bool) (a : areq)
   : ae_cont :=
   match aq_entries a with
@@ -388,8 +396,11 @@ Definition ae_entries (P : params) (fail_resp : aresp) (s2 : nstate) (tr1 : list
     | ScanConflict ci news =>
       let '(s3, ok, fs3) := do_delete s2 fs1 ci lastLogIdx in
       if negb ok then inr (fail_resp, s3, tr1 ++ [EDelete ci lastLogIdx false], fs3)
-      else let s3' := if ci <=? v_latestIdx s3
-                      then set_latest s3 (v_committed s3) (v_committedIdx s3) else s3 in
+      else (* the cached last log moves to the entry before the truncation point at once (fix: commit) *)
+           let '(pi, pt) := conflict_pred a news in
+           let s3c := set_lastlog s3 pi pt in
+           let s3' := if ci <=? v_latestIdx s3c
+                      then set_latest s3c (v_committed s3c) (v_committedIdx s3c) else s3c in
            store_new P fail_resp (aq_commit a) s3' (tr1 ++ [EDelete ci lastLogIdx true]) fs3 news
     end
   end.
